@@ -199,6 +199,43 @@ fn async_refake_same_function() {
 }
 }
 
+stubs! { @unwind 26
+/// re-fake of the same async function where the SECOND fake goes through the unchecked flavour
+fn async_refake_unchecked_same_function() {
+    unsafe {
+        common();
+        sim::S.NE_ACT = 1;
+        sim::S.NJ_ACT = 2;
+        let fa = sib_a(1);
+        let pa = poll_addr(&fa);
+        let b0: [u8; sim::RLEN] = kani::any();
+        sim::register_entry(0, pa, 16, b0);
+        core::mem::forget(fa);
+        let first_unchecked: bool = kani::any();
+        {
+            let mut inj = InjectorPP::new();
+            let r2 = crate::async_return_unchecked!(cell_u32(), u32);
+            let raw2 = r2.__verif_raw();
+            if first_unchecked {
+                let r1 = crate::async_return_unchecked!(111u32, u32);
+                inj.when_called_async_unchecked(crate::async_func_unchecked!(sib_a(2))).will_return_async_unchecked(r1);
+            } else {
+                let r1 = crate::async_return!(111u32, u32);
+                inj.when_called_async(crate::async_func!(sib_a(2), u32)).will_return_async(r1);
+            }
+            inj.when_called_async_unchecked(crate::async_func_unchecked!(sib_a(3))).will_return_async_unchecked(r2);
+            check_redirect(pa, raw2);
+        }
+        let mut i = 0;
+        while i < 16 {
+            assert!(sim::ENT[0].bytes[i] == b0[i], "VERIF[C14,C02]: the original poll code is not back after the injector is gone");
+            i += 1;
+        }
+        assert!(sim::live_jits() == 0 && !lock_held(), "VERIF[C14,C12]: trampoline or guard not released after the injector is gone");
+    }
+}
+}
+
 stubs! {
 /// unit and large by-memory outputs: the generated function returns Ready(value) of that type
 fn async_outputs_unit_and_large() {
